@@ -57,7 +57,8 @@ Record feat := {
   f_group : opts;                       (* Options.group *)
   f_ctx : opts;                         (* Options.context *)
   f_dom : option string;                (* Feature(domain=...) *)
-  f_ffw : option fw;                    (* Feature(compute_framework=...) or options["compute_framework"], resolved *)
+  f_ffw : option fw;                    (* Feature(compute_framework=...) or options["compute_framework"], resolved to the
+                                           class OBJECT by Feature.__init__ (Model/Resolve.feature_fw_of_name) *)
   f_link : option lk }.                 (* Feature(link=...) *)
 
 Definition eff_dom (f : feat) : option string :=                             (* Feature._set_domain *)
@@ -89,7 +90,7 @@ Record xclass := {
   x_cid : nat; x_supers : list nat; x_crit : crit; x_dom : string; x_rule : option (list fw); x_idx : option (list index) }.
 
 Record mrequest := {
-  m_api : list fw;
+  m_api : list apient;                  (* str entries = AName, class entries = AClass *)
   m_collector : option (list nat * list nat);
   m_links : option (list lk);           (* links given to the API *)
   m_feats : list feat }.
@@ -218,10 +219,12 @@ Record walk := {
   wg : list xclass -> list xclass;
   wf : list fwnode -> list fwnode;
   wa : list fwnode -> list fwnode }.
-Definition env_with (ex av : list fwnode) : env := {| existing := map fid ex; available := map fid (filter favail av) |}.
-Definition env_of (l : list fwnode) : env := env_with l l.
-Definition answer (w : walk) (st : pstate) (rq : mrequest) : routcome :=
-  request_outcome (env_with (wf w (p_fws st)) (wa w (p_fws st))) (wg w (p_groups st)) rq.
+(* `nm x` = the __name__ of class object x: an attribute of the object, not process state (two objects may share a name) *)
+Definition env_with (nm : fw -> fwname) (ex av : list fwnode) : env :=
+  {| existing := map fid ex; available := map fid (filter favail av); cname := nm |}.
+Definition env_of (nm : fw -> fwname) (l : list fwnode) : env := env_with nm l l.
+Definition answer (nm : fw -> fwname) (w : walk) (st : pstate) (rq : mrequest) : routcome :=
+  request_outcome (env_with nm (wf w (p_fws st)) (wa w (p_fws st))) (wg w (p_groups st)) rq.
 
 Definition define (st : pstate) (o : op) : pstate :=
   match o with
@@ -230,20 +233,20 @@ Definition define (st : pstate) (o : op) : pstate :=
   | Request _ => st
   end.
 (* `ws k` = the walk orders of the k-th request of the process *)
-Definition step (ws : nat -> walk) (acc : pstate * list routcome) (o : op) : pstate * list routcome :=
+Definition step (nm : fw -> fwname) (ws : nat -> walk) (acc : pstate * list routcome) (o : op) : pstate * list routcome :=
   match o with
-  | Request rq => (fst acc, snd acc ++ [answer (ws (List.length (snd acc))) (fst acc) rq])
+  | Request rq => (fst acc, snd acc ++ [answer nm (ws (List.length (snd acc))) (fst acc) rq])
   | _ => (define (fst acc) o, snd acc)
   end.
-Definition run_history (ws : nat -> walk) (st : pstate) (ops : list op) : pstate * list routcome :=
-  fold_left (step ws) ops (st, []).
+Definition run_history (nm : fw -> fwname) (ws : nat -> walk) (st : pstate) (ops : list op) : pstate * list routcome :=
+  fold_left (step nm ws) ops (st, []).
 
 (* what each request of a history must be answered with: the request on the classes that exist at that moment, nothing else *)
-Fixpoint spec_answers (st : pstate) (ops : list op) : list routcome :=
+Fixpoint spec_answers (nm : fw -> fwname) (st : pstate) (ops : list op) : list routcome :=
   match ops with
   | [] => []
-  | Request rq :: t => request_outcome (env_of (p_fws st)) (p_groups st) rq :: spec_answers st t
-  | o :: t => spec_answers (define st o) t
+  | Request rq :: t => request_outcome (env_of nm (p_fws st)) (p_groups st) rq :: spec_answers nm st t
+  | o :: t => spec_answers nm (define st o) t
   end.
 Definition final_state (st : pstate) (ops : list op) : pstate := fold_left define ops st.
 Definition id_walk : walk := {| wg := fun l => l; wf := fun l => l; wa := fun l => l |}.
@@ -259,7 +262,7 @@ Definition direct (l : list fwnode) : list fw := map fid (filter (fun n => Nat.e
 Fixpoint nl_eqb (a b : list nat) : bool :=
   match a, b with [], [] => true | x :: s, y :: t => Nat.eqb x y && nl_eqb s t | _, _ => false end.
 Definition memo := option (list fw * list fwnode).
-Definition memo_step (acc : (pstate * memo) * list routcome) (o : op) : (pstate * memo) * list routcome :=
+Definition memo_step (nm : fw -> fwname) (acc : (pstate * memo) * list routcome) (o : op) : (pstate * memo) * list routcome :=
   match o with
   | Request rq =>
       let st := fst (fst acc) in
@@ -272,7 +275,8 @@ Definition memo_step (acc : (pstate * memo) * list routcome) (o : op) : (pstate 
                              | None => {| x_cid := x_cid c; x_supers := x_supers c; x_crit := x_crit c; x_dom := x_dom c;
                                           x_rule := Some (map fid (snd m)); x_idx := x_idx c |}
                              | Some _ => c end) (p_groups st) in
-      ((st, Some m), snd acc ++ [request_outcome (env_of (p_fws st)) u rq])
+      ((st, Some m), snd acc ++ [request_outcome (env_of nm (p_fws st)) u rq])
   | _ => ((define (fst (fst acc)) o, snd (fst acc)), snd acc)
   end.
-Definition run_memo (st : pstate) (ops : list op) : list routcome := snd (fold_left memo_step ops ((st, None), [])).
+Definition run_memo (nm : fw -> fwname) (st : pstate) (ops : list op) : list routcome :=
+  snd (fold_left (memo_step nm) ops ((st, None), [])).
